@@ -180,7 +180,12 @@ func inlineFilterRefs(r Getter, val Object) (Native, error) {
 
 // CopyArray copies an array from the source file to the target file.
 func (c *Copier) CopyArray(obj Array) (Array, error) {
-	var res Array
+	if obj == nil {
+		return nil, nil
+	}
+	// start from a non-nil slice: an empty array must stay an empty array,
+	// a nil slice would be written as null
+	res := make(Array, 0, len(obj))
 	for _, val := range obj {
 		var repl Native
 		if val != nil {
